@@ -100,58 +100,7 @@ def _run(ctx, w):
         shared.frame(ctx, w, "W2", v, buf + [(cur, "col"), (cur, "row"), (R["pending_wrap"],)], "LF/NEL/RI may move the cursor but change no mode, pen, tab stop, margin or saved context")
 
     # ---- W3/W4 operands at every call of the primitives from the terminal ------------------
-    ctx.rule("W3", "region scrolls pass top_margin..bottom_margin+1; IL/DL pass cursor.row..bottom_margin+1, or cursor.row..rows when the cursor is below the region")
-    ctx.rule("W4", "the pen handed to the scroll primitives is the terminal's current pen")
-    tm_t, bm_t = ("load", ("arg1", R["top_margin"])), ("load", ("arg1", R["bottom_margin"]))
-    row_t, rows_t = ("load", ("arg1", cur, "row")), ("load", ("arg1", R["rows"]))
-    region = ("adt", "core::ops::range::Range", "Range", ("start", "end"), (tm_t, ("binop", "Add", bm_t, ("const", 1))))
-    il_in = ("adt", "core::ops::range::Range", "Range", ("start", "end"), (row_t, ("binop", "Add", bm_t, ("const", 1))))
-    il_below = ("adt", "core::ops::range::Range", "Range", ("start", "end"), (row_t, rows_t))
-    il_handlers = set(w.handler("Il")) | set(w.handler("Dl"))
-    nsites = 0
-    for f in sorted(S.terminal_scope):
-        T = w.terms(f)
-        for prim in (up, down):
-            for cs in E.call_sites(f, prim):
-                nsites += 1
-                rng = WD.strip_names(c15_strip_clone(T.operand(cs.term["args"][1], cs.point)))
-                pen = WD.strip_names(T.operand(cs.term["args"][3], cs.point))
-                key = "%s:%s" % (f, shared.site_key(w, f, cs.point))
-                fsel = f
-                if rng[0] == "call" and rng[1] in w.bodies and rng[2] == (("ref", False, ("load", ("arg1",))),) and not E.summaries[rng[1]].W:
-                    # the range is computed by a pure helper method of the terminal: analyse the helper
-                    fsel = rng[1]
-                    hb = w.body(fsel)
-                    HT = w.terms(fsel)
-                    rts = [WD.strip_names(HT.local(0, (rb, hb.n_stmts(rb)))) for rb in hb.return_blocks()]
-                    rng = rts[0] if len(rts) == 1 else ("phi", tuple(rts))
-                if f in il_handlers:
-                    alts = set(rng[1]) if rng[0] == "phi" else {rng}
-                    ok = alts == {il_in, il_below}
-                    ctx.check(ok, "W3", key, "%s scrolls %s; IL/DL must act on cursor.row..bottom_margin+1 or cursor.row..rows" % (f, w.tstr(f, rng)), loc=w.site_loc(cs),
-                              sample={"fn": f, "range": w.tstr(f, rng)})
-                    # the selection between the two is `cursor.row <= bottom_margin`
-                    b = w.body(fsel)
-                    TS = w.terms(fsel)
-                    conds = []
-                    for blk in sorted(b.normal_blocks()):
-                        t = b.term(blk)
-                        if t["k"] == "switch":
-                            conds.append(WD.strip_names(TS.operand(t["discr"], (blk, b.n_stmts(blk)))))
-                    sel = any(c[0] == "binop" and ((c[1] == "Le" and c[2] == row_t and c[3] == bm_t) or (c[1] == "Ge" and c[2] == bm_t and c[3] == row_t)
-                                                   or (c[1] == "Gt" and c[2] == row_t and c[3] == bm_t) or (c[1] == "Lt" and c[2] == bm_t and c[3] == row_t)) for c in conds)
-                    ctx.check(sel, "W3", key + ":select", "%s does not choose between the two ranges by comparing the cursor row with the bottom margin (conditions: %s)" % (f, [w.tstr(f, c) for c in conds]), loc=w.fn_loc(f))
-                    if sel:
-                        # orientation: the in-region range is built under row <= bm
-                        ok2 = range_guard_ok(w, fsel, il_in, il_below, row_t, bm_t)
-                        ctx.check(ok2, "W3", key + ":orientation", "%s uses the to-the-last-row range when the cursor is inside the region (or vice versa)" % f, loc=w.fn_loc(f))
-                else:
-                    ctx.check(rng == region, "W3", key, "%s scrolls %s instead of the scroll region top_margin..bottom_margin+1" % (f, w.tstr(f, rng)), loc=w.site_loc(cs),
-                              sample={"fn": f, "range": w.tstr(f, rng)})
-                ctx.check(pen == ("ref", False, ("load", ("arg1", R["pen"]))), "W4", key, "%s fills vacated rows with %s, not the current pen" % (f, w.tstr(f, pen)), loc=w.site_loc(cs),
-                          sample={"fn": f, "pen": w.tstr(f, pen)})
-    ctx.floor("W3", 4, "scroll primitive call sites")
-    ctx.floor("W4", 4, "scroll primitive call sites")
+    range_rules(ctx, w, S, R, up, down)
     scroll_helpers_total(ctx, w, S, R, up, down, "W3m")
 
     # ---- W4b blanks inside the primitives use the pen parameter -------------------------------------
@@ -374,6 +323,16 @@ def linefeed_rule(ctx, w, S, R, up):
             n += 1
             ctx.check(ok, "W10", "%s:scroll:%s" % (f, shared.site_key(w, f, cs.point)), "%s scrolls the region without having established cursor.row == bottom_margin (guards: %s)" % (f, [(w.tstr(f, c), v) for c, v in gs]),
                       loc=w.site_loc(cs), sample={"fn": f, "guards": [(w.tstr(f, c), v) for c, v in gs]})
+        # ... and on the bottom margin it ALWAYS scrolls (no shortcut for "nothing visible would change": the scroll also feeds the scrollback)
+        for blk in sorted(b.normal_blocks()):
+            tm_ = b.term(blk)
+            if tm_["k"] != "switch":
+                continue
+            c_ = WD.strip_names(T.operand(tm_["discr"], (blk, b.n_stmts(blk))))
+            if c_ == ("binop", "Eq", row_t, bm_t) and tm_.get("otherwise") is not None:
+                okm = b.every_path_to_return_hits((tm_["otherwise"], 0), {cs.point for cs in scrolls}, include_start=True)
+                ctx.check(okm, "W10", "%s:always-scrolls" % f, "%s: with the cursor on the bottom margin some path does not scroll the region (a skipped scroll loses the row that should enter the scrollback)" % f,
+                          loc=w.stmt_loc(f, (blk, b.n_stmts(blk))), sample={"fn": f})
         for cs in downs:
             gs = [(WD.strip_names(c), v) for c, v in w.guards_of(f, cs.point[0])]
             ok = any(c == ("binop", "Eq", row_t, bm_t) and v is False for c, v in gs)
@@ -526,3 +485,61 @@ def scroll_helpers_total(ctx, w, S, R, up, down, rule):
                 ctx.check(n_t == ("load", ("arg2",)), rule, f + ":count:" + shared.site_key(w, f, cs.point), "%s scrolls by %s instead of the count it was given" % (f, w.tstr(f, n_t)), loc=w.site_loc(cs),
                           sample={"fn": f, "count": w.tstr(f, n_t)})
     ctx.floor(rule, 2, "region scroll helpers")
+
+
+def range_rules(ctx, w, S, R, up, down):
+    """W3 / W4: which row range and which pen the handlers hand to the scroll primitives."""
+    E = w.E
+    cur = R["cursor"]
+    ctx.rule("W3", "region scrolls pass top_margin..bottom_margin+1; IL/DL pass cursor.row..bottom_margin+1, or cursor.row..rows when the cursor is below the region")
+    ctx.rule("W4", "the pen handed to the scroll primitives is the terminal's current pen")
+    tm_t, bm_t = ("load", ("arg1", R["top_margin"])), ("load", ("arg1", R["bottom_margin"]))
+    row_t, rows_t = ("load", ("arg1", cur, "row")), ("load", ("arg1", R["rows"]))
+    region = ("adt", "core::ops::range::Range", "Range", ("start", "end"), (tm_t, ("binop", "Add", bm_t, ("const", 1))))
+    il_in = ("adt", "core::ops::range::Range", "Range", ("start", "end"), (row_t, ("binop", "Add", bm_t, ("const", 1))))
+    il_below = ("adt", "core::ops::range::Range", "Range", ("start", "end"), (row_t, rows_t))
+    il_handlers = set(w.handler("Il")) | set(w.handler("Dl"))
+    nsites = 0
+    for f in sorted(S.terminal_scope):
+        T = w.terms(f)
+        for prim in (up, down):
+            for cs in E.call_sites(f, prim):
+                nsites += 1
+                rng = WD.strip_names(c15_strip_clone(T.operand(cs.term["args"][1], cs.point)))
+                pen = WD.strip_names(T.operand(cs.term["args"][3], cs.point))
+                key = "%s:%s" % (f, shared.site_key(w, f, cs.point))
+                fsel = f
+                if rng[0] == "call" and rng[1] in w.bodies and rng[2] == (("ref", False, ("load", ("arg1",))),) and not E.summaries[rng[1]].W:
+                    # the range is computed by a pure helper method of the terminal: analyse the helper
+                    fsel = rng[1]
+                    hb = w.body(fsel)
+                    HT = w.terms(fsel)
+                    rts = [WD.strip_names(HT.local(0, (rb, hb.n_stmts(rb)))) for rb in hb.return_blocks()]
+                    rng = rts[0] if len(rts) == 1 else ("phi", tuple(rts))
+                if f in il_handlers:
+                    alts = set(rng[1]) if rng[0] == "phi" else {rng}
+                    ok = alts == {il_in, il_below}
+                    ctx.check(ok, "W3", key, "%s scrolls %s; IL/DL must act on cursor.row..bottom_margin+1 or cursor.row..rows" % (f, w.tstr(f, rng)), loc=w.site_loc(cs),
+                              sample={"fn": f, "range": w.tstr(f, rng)})
+                    # the selection between the two is `cursor.row <= bottom_margin`
+                    b = w.body(fsel)
+                    TS = w.terms(fsel)
+                    conds = []
+                    for blk in sorted(b.normal_blocks()):
+                        t = b.term(blk)
+                        if t["k"] == "switch":
+                            conds.append(WD.strip_names(TS.operand(t["discr"], (blk, b.n_stmts(blk)))))
+                    sel = any(c[0] == "binop" and ((c[1] == "Le" and c[2] == row_t and c[3] == bm_t) or (c[1] == "Ge" and c[2] == bm_t and c[3] == row_t)
+                                                   or (c[1] == "Gt" and c[2] == row_t and c[3] == bm_t) or (c[1] == "Lt" and c[2] == bm_t and c[3] == row_t)) for c in conds)
+                    ctx.check(sel, "W3", key + ":select", "%s does not choose between the two ranges by comparing the cursor row with the bottom margin (conditions: %s)" % (f, [w.tstr(f, c) for c in conds]), loc=w.fn_loc(f))
+                    if sel:
+                        # orientation: the in-region range is built under row <= bm
+                        ok2 = range_guard_ok(w, fsel, il_in, il_below, row_t, bm_t)
+                        ctx.check(ok2, "W3", key + ":orientation", "%s uses the to-the-last-row range when the cursor is inside the region (or vice versa)" % f, loc=w.fn_loc(f))
+                else:
+                    ctx.check(rng == region, "W3", key, "%s scrolls %s instead of the scroll region top_margin..bottom_margin+1" % (f, w.tstr(f, rng)), loc=w.site_loc(cs),
+                              sample={"fn": f, "range": w.tstr(f, rng)})
+                ctx.check(pen == ("ref", False, ("load", ("arg1", R["pen"]))), "W4", key, "%s fills vacated rows with %s, not the current pen" % (f, w.tstr(f, pen)), loc=w.site_loc(cs),
+                          sample={"fn": f, "pen": w.tstr(f, pen)})
+    ctx.floor("W3", 4, "scroll primitive call sites")
+    ctx.floor("W4", 4, "scroll primitive call sites")
